@@ -85,8 +85,14 @@ func init() {
 			}
 			for i := range enum.SigmaFull {
 				for f := range frames {
-					// weight 0: the families run after the exhaustive spaces, so a deadline cuts them first
-					us = append(us, core.Unit{Name: fmt.Sprintf("family|%d|%d|%d", i, maxN, f), Weight: 0})
+					fw := 9 // quick: the growth families first - on a tree that made parsing super-linear the exhaustive spaces would eat the deadline
+					if tier == "thorough" {
+						fw = 0 // thorough: the families to 4096 tokens run after the exhaustive spaces, so a deadline cuts them first
+					}
+					us = append(us, core.Unit{Name: fmt.Sprintf("family|%d|%d|%d", i, maxN, f), Weight: fw})
+					// first stage, always early: every family to 128 tokens only (a blow-up shows at 64-128 tokens,
+					// long before the big sizes make each call slow)
+					us = append(us, core.Unit{Name: fmt.Sprintf("family|%d|%d|%d", i, 128, f), Weight: 10})
 				}
 			}
 			return us
@@ -107,9 +113,9 @@ func init() {
 					if w.Counters["violating_cases"] > before {
 						bad++
 					}
-					if bad >= 5 {
+					if bad >= 2 || w.Flooded() {
 						// every further block of this frame would burn the same budget again
-						w.Inexhaust = "family unit stopped after 5 violating blocks"
+						w.Inexhaust = "family unit stopped after 2 violating blocks"
 						break
 					}
 				}
